@@ -12,6 +12,7 @@
 from __future__ import annotations
 
 import math
+import random
 import re
 import sys
 import types
@@ -929,15 +930,33 @@ def shapes_part(ctx: vlib.Ctx, mod, mem: Members):
     expr_of = {repr(eval(e, mod.__dict__)): e for e in SCALAR_EXPRS + NONSCALAR_EXPRS}
     expr_of[repr(NoneType)] = "None"
     n_shapes = ctx.budget(330, 1500)
-    for it in range(n_shapes):
-        shape = names[it % len(names)]
+    # systematic prefix (own random stream, the sampled part below is unchanged by it): EVERY shape x EVERY entry point
+    # (codec / field / nullable field: could_be_none handed down as False) x both directions with an Optional position
+    # that receives None -- the null member must match null at every nesting, whatever the enclosing spec says
+    entries = ["codec", "field", "optfield"]
+    n_sys = len(names) * len(entries) * 2
+    srng = random.Random(ctx.seed * 7919 + 11)
+    main_rng = rng
+    for it in range(-n_sys, n_shapes):
+        systematic = it < 0
+        rng = srng if systematic else main_rng
+        k = it + n_sys
+        shape = names[(k // 2) % len(names)] if systematic else names[it % len(names)]
         encode = it % 2 == 1
         nh = SHAPES[shape][0]
         h0 = gen_hole(rng, encode)
+        if systematic:
+            inner = rng.choice(OPT_INNER)
+            h0 = [inner, "None"] if rng.random() < 0.7 else ["None", inner]
         # the second hole: the same members in another order (typing equality ignores the order), or independent
         h1 = permuted(rng, h0) if rng.random() < 0.6 else gen_hole(rng, encode)
+        if systematic:      # both holes Optional, independent inner types
+            inner1 = rng.choice(OPT_INNER)
+            h1 = [inner1, "None"] if rng.random() < 0.7 else ["None", inner1]
         holes = [hole_expr(h0), hole_expr(h1)][:nh]
-        entry = rng.choice(["codec", "field", "optfield"])
+        entry = rng.choice(entries)
+        if systematic:
+            entry = entries[(k // 2) // len(names)]
         try:
             site = ShapeSite(mod, shape, holes, entry)
         except Exception as e:
@@ -966,6 +985,16 @@ def shapes_part(ctx: vlib.Ctx, mod, mem: Members):
                 else:
                     a = rng.choice(ORDER_SENSITIVE if rng.random() < 0.6 else DECODE_INPUTS)
                     b = a if rng.random() < 0.5 else rng.choice(ORDER_SENSITIVE if rng.random() < 0.6 else DECODE_INPUTS)
+                    if systematic and rep_i < 2:
+                        # one slot receives None, the other an input its hole accepts (so that a raise of the whole is a verdict)
+                        def okin(i):
+                            c = []
+                            for dx in DECODE_INPUTS:
+                                d0 = eval(dx, mod.__dict__)
+                                if d0 is not None and ref_union_decode(infos[i][1], d0, lambda m, d0=d0: mem.accept(m, d0))[0] == "ok":
+                                    c.append(dx)
+                            return rng.choice(c) if c else "None"
+                        a, b = ("None", okin(1)) if rep_i == 0 else (okin(0), "None")
                 inx = site.fmt(site.in_tpl, a, b)
                 whole = outcome(site.decode, eval(inx, mod.__dict__))
                 exps, ds = [], []
@@ -1013,7 +1042,7 @@ def shapes_part(ctx: vlib.Ctx, mod, mem: Members):
                     cands = []
                     for m in members:
                         cands += ENCODE_VALUES.get(expr_of.get(repr(m), ""), [])
-                    if NoneType in members and rng.random() < 0.45:
+                    if NoneType in members and (rng.random() < 0.45 or (systematic and rep_i == i)):
                         cands = ["None"]
                     if not cands:
                         ok = False
@@ -1726,6 +1755,171 @@ def ascii_only_str(subs) -> bool:
 
 
 # ---------------------------------------------------------------------------
+# recursive PEP 695 aliases: `type R = Union[leaf.., container[R]]` decodes / encodes like its finite unfolding
+# ---------------------------------------------------------------------------
+REC_CONTAINERS = ["List[{R}]", "List[{R}]", "Tuple[{R}, ...]", "Dict[str, {R}]", "Tuple[{R}, int]", "Tuple[str, {R}]"]
+# (root form, Coq case possible): Optional[alias] is not flattened by typing while Optional[unfolding] is
+REC_FORMS = [("{R}", True), ("{R}", True), ("List[{R}]", True), ("Dict[str, {R}]", True), ("Tuple[{R}, ...]", True), ("Optional[{R}]", False),
+             ("Tuple[{U}, {R}]", True), ("Tuple[{R}, {U}]", True), ("Tuple[{R}, int]", True), ("Tuple[{R}, {S}]", True),
+             ("Dict[str, Tuple[{R}, {R}]]", True), ("List[Tuple[{U}, {R}]]", True)]
+REC_PLAIN_UNIONS = ["Union[int, str]", "Union[date, int]", "Union[int, float, None]", "Union[str, UUID]"]
+REC_KIND = "recursive-union-method-reuse"
+REC_DEPTH = 4
+
+
+class RecAlias:
+    def __init__(self, rng, name: str):
+        self.name = name
+        leaves = rng.sample(DEEP_SCALARS + DEEP_LEAVES, rng.choice([1, 1, 2]))
+        if rng.random() < 0.2:
+            leaves.insert(rng.randrange(len(leaves) + 1), "None")
+        self.leaves = leaves
+        self.container = rng.choice(REC_CONTAINERS)
+        ms = list(leaves)
+        ms.insert(rng.randrange(len(ms) + 1), self.container)
+        self.members = ms
+        self.pep604 = rng.random() < 0.3 and "None" not in ms
+        self.fixed_tuple = self.container.startswith("Tuple[") and "..." not in self.container
+
+    def definition(self) -> str:
+        ms = [m.format(R=self.name) for m in self.members]
+        return f"type {self.name} = " + (" | ".join(ms) if self.pep604 else f"Union[{', '.join(ms)}]") + "\n"
+
+    def unfold(self, k: int) -> str:
+        if k == 0:
+            return f"Union[{', '.join(self.leaves)}]"
+        return "Union[" + ", ".join(m.format(R=self.unfold(k - 1)) for m in self.members) + "]"
+
+
+def rec_part(ctx: vlib.Ctx, mod, mem: Members):
+    """the recursion site of a recursive alias must call the method of ITS union with the argument of the call site:
+    decode_R(d) == decode_{R unfolded REC_DEPTH times}(d) == REF, for inputs on which the unfolding depth does not matter"""
+    rng = ctx.rng
+    ns = mod.__dict__
+    dcases, dinfo, qcases, qinfo = [], [], [], []
+
+    def clean():
+        for _f in getattr(typing, "_cleanups", []):
+            _f()
+
+    curated = 0
+    for si in range(ctx.budget(60, 400)):
+        n = _MOD_COUNTER[0] = _MOD_COUNTER[0] + 1
+        r, s2 = RecAlias(rng, f"R{n}"), RecAlias(rng, f"S{n}")
+        form, coq_ok = REC_FORMS[si % len(REC_FORMS)]
+        u = rng.choice(REC_PLAIN_UNIONS)
+        used_s = "{S}" in form
+        defs = r.definition() + (s2.definition() if used_s else "")
+        expr = form.format(R=r.name, S=s2.name, U=u)
+        unf = lambda k: form.format(R=r.unfold(k), S=s2.unfold(k), U=u)
+        # a fixed-size tuple around the alias (or as its recursive member) gives a call site whose argument is not `value`; the
+        # forms with a second union in the same field are all fixed-size tuples
+        trigger = ("Tuple[" in form and "..." not in form) or r.fixed_tuple or (used_s and s2.fixed_tuple)
+        entry = ("field", "codec")[si % 2]
+        try:
+            xexec(defs, ns)
+            clean()
+            site = DeepSite(mod, expr, entry)
+            site.snippet = defs + site.snippet
+            clean()
+            usite = DeepSite(mod, unf(REC_DEPTH), entry)
+            clean()
+            usite2 = DeepSite(mod, unf(REC_DEPTH + 1), entry)
+            clean()
+            gen_tp = eval(unf(2), ns)
+        except Exception as e:
+            ctx.notes.append(f"recursive schema not built: {defs.strip()} / {expr}: {type(e).__name__}: {e}"[:240])
+            continue
+        tp, tp2 = usite.tp, usite2.tp
+        what = f"{expr} where {defs.strip().replace(chr(10), '; ')}"
+        ctx.hist("rec_form", form + ("/trigger" if trigger else "/plain") + "/" + entry)
+        for _ in range(ctx.budget(5, 7)):
+            # ---- decode
+            d = gen_deep_input(rng, gen_tp)
+            if ascii_only(d):
+                dx = repr(d)
+                expected = outcome(ref_deep, tp, d, mem)
+                uobs = outcome(usite.decode, d)
+                if not same(expected, outcome(ref_deep, tp2, d, mem)) or not same(uobs, outcome(usite2.decode, d)):
+                    ctx.hist("rec_outcome", "decode/depth-sensitive-skipped")
+                else:
+                    observed = outcome(site.decode, d)
+                    if same(observed, expected):
+                        cls = "agree"
+                    elif same(observed, uobs):
+                        node_cls = []
+                        for utp, members, dd in visit_unions(tp, d):
+                            racc = lambda m, x=dd: mem.accept(m, x)
+                            node_cls.append(classify_decode(members, dd, mem.accept(utp, dd), ref_union_decode(members, dd, racc), racc))
+                        bad = [c for c in node_cls if c != "agree"]
+                        cls = bad[0] if bad and all(c in KF_KINDS for c in bad) else "other"
+                    else:
+                        cls = REC_KIND if trigger else "other"
+                    ctx.count(("rec", form, r.container, entry, type(d).__name__, cls, observed[0]))
+                    ctx.hist("rec_outcome", "decode/" + cls + "/" + observed[0])
+                    if cls != "agree":
+                        ctx.fail(f"decode {what} via {entry} <- {dx}: got {show(observed)}, property (and the unfolded type) says {show(expected)}",
+                                 dict(site.replay_base(), op="decode", input=dx, observed=show(observed), expected=show(expected)),
+                                 {"kind": cls, "op": "decode"} if cls != "other" else {"kind": cls, "op": "decode", "rec": True})
+                    if coq_ok and cls != REC_KIND:
+                        subs = subvalues(d)
+                        kinds: set = set()
+                        cty = coq_cty(tp, subs, mem, kinds)
+                        cot = "; ".join(f"({KIND[k]}, [" + "; ".join(f"({to_uv(x)}, {to_ouv(mem.accept(k, x))})" for x in subs) + "])"
+                                        for k in sorted(kinds, key=lambda z: KIND[z]) if k is not NoneType)
+                        dcases.append(f"DCA {cty} [{cot}] {to_uv(d)} {to_ouv(observed)} {to_ouv(expected)}")
+                        dinfo.append((what, entry, dx, show(observed), show(expected), cls))
+            # ---- encode
+            vx = gen_deep_value(rng, gen_tp)
+            try:
+                v = eval(vx, ns)
+            except Exception:
+                continue
+            if not conforms(tp, v):
+                continue
+            expected = outcome(ref_enc_deep, tp, v, mem)
+            if expected[0] != "ok":
+                continue
+            uobs = outcome(usite.encode, v)
+            if not same(uobs, outcome(usite2.encode, v)):
+                # e.g. a str-mixin enum member captured by an earlier List[R] packer (finding union-encode-untyped-try): the
+                # nesting of the result is the unfolding depth / the recursion limit
+                ctx.hist("rec_outcome", "encode/depth-sensitive-skipped")
+                continue
+            observed = outcome(site.encode, v)
+            if same(observed, expected):
+                cls = "agree"
+            elif same(observed, uobs):
+                node_cls = []
+                for utp, members, vv in visit_unions_enc(tp, v):
+                    j = next((k for k, mm in enumerate(members) if conforms(mm, vv)), None)
+                    if j is None:
+                        node_cls.append("other")
+                        continue
+                    menc = lambda m, x: mem.encode(m, x, False)
+                    exp_n = ("ok", None) if members[j] is NoneType else menc(members[j], vv)
+                    node_cls.append(classify_encode(site, members, j, vv, mem.encode(utp, vv, False), exp_n, menc))
+                bad = [c for c in node_cls if c != "agree"]
+                cls = bad[0] if bad and all(c == "union-encode-untyped-try" for c in bad) else "other"
+            else:
+                cls = REC_KIND if trigger else "other"
+            ctx.count(("rec-enc", form, r.container, entry, cls, observed[0]))
+            ctx.hist("rec_outcome", "encode/" + cls + "/" + observed[0])
+            if cls != "agree":
+                ctx.fail(f"encode {what} via {entry} <- {vx}: got {show(observed)}, property (and the unfolded type) says {show(expected)}",
+                         dict(site.replay_base(), op="encode", input=vx, observed=show(observed), expected=show(expected)),
+                         {"kind": cls, "op": "encode"} if cls != "other" else {"kind": cls, "op": "encode", "rec": True})
+            subs = subvalues(v)
+            if coq_ok and cls != REC_KIND and ascii_only_str(subs) and entry == "codec":
+                qcases.append(f"QCA {coq_pty(tp, subs, mem)} {to_uv(v)} {to_ouv(observed)} {to_ouv(expected)}")
+                qinfo.append((what, vx, show(observed), show(expected), cls))
+    corr(ctx, "rec-decode-model-vs-impl", dcases, dinfo, "dcase", ["dcase_ok", "dcase_ok_model", "dcase_ok_ref", "dcase_thm"],
+         stale_fun="dcase_stale", imports="UnionModel UnionDeep", shard=150)
+    corr(ctx, "rec-encode-model-vs-impl", qcases, qinfo, "qcase", ["qcase_ok", "qcase_ok_model", "qcase_ok_ref", "qcase_thm"],
+         stale_fun="qcase_stale", imports="UnionModel UnionDeep UnionDeepEnc", shard=150, needs=("theories/UnionDeepEnc.vo",))
+
+
+# ---------------------------------------------------------------------------
 # K19: the translated emission loop vs the method text the real generator produces
 # ---------------------------------------------------------------------------
 FB_TEXT = {"int(value)": "KInt", "float(value)": "KFloat", "bool(value)": "KBool", "str(value)": "KStr", "None": "KNone"}
@@ -2386,6 +2580,7 @@ def run(ctx: vlib.Ctx):
     typevar_part(ctx, mod, mem)
     deep_part(ctx, mod, mem)
     deep_enc_part(ctx, mod, mem)
+    rec_part(ctx, mod, mem)
     k19_part(ctx, mod)
     k21_part(ctx, mod)
     k22_part(ctx, mod)
